@@ -42,8 +42,17 @@ def retry_table(src, fname):
         if am.group(1) == "_": other = val
         elif am.group(2) == "ServerError": server = val
         elif val: other = True  # an explicit non-transport variant is retried
-    if re.sub(arm, "", rest).strip():
-        raise ExtractError(f"{fname}: unrecognised arm in is_retryable_error: `{re.sub(arm, '', rest).strip()[:120]}`")
+    left = re.sub(arm, "", rest).strip()
+    if left:
+        # an arm whose value is not a literal: a dangerous unknown form, not a harmless one. If it is
+        # about ServerError (e.g. `ServerError { code, .. } => matches!(code, …)`) some application
+        # errors are retried: pessimistic fact; the same for any other non-Io variant.
+        if re.match(r"RepeError::ServerError\b", left):
+            server = True
+        elif re.match(r"RepeError::\w+", left) or left.startswith("_"):
+            other = True if other is None else True
+        else:
+            raise ExtractError(f"{fname}: unrecognised arm in is_retryable_error: `{left[:120]}`")
     if other is None: raise ExtractError(f"{fname}: no `_ =>` arm")
     if server is None: server = other
     return kinds, server, other
